@@ -51,7 +51,8 @@ def scenarios(draw):
                 'watching.server_timeout': draw(st.sampled_from([None, None, 4.0])),
                 'watching.client_timeout': draw(st.sampled_from([None, None, 6.0])),
                 'watching.inactivity_timeout': draw(st.sampled_from([70.0, 70.0, 2.5])),
-                'networking.error_backoffs': draw(st.sampled_from([[0.1, 0.2], [], [0.5]]))}
+                'networking.error_backoffs': draw(st.sampled_from([[0.1, 0.2], [], [0.5]])),
+                'queueing.idle_timeout': draw(st.sampled_from([5.0, 0.5, 1.0]))}
     spec = {'handlers': [{'kind': 'event', 'id': 'ev', 'resource': 'kopfexamples'},
                          {'kind': 'event', 'id': 'evc', 'resource': 'kopfclusterthings'}], 'settings': settings}
     dts = st.sampled_from([0.0, 0.0, 0.05, 0.2, 0.5, 1.0, 3.0])
@@ -67,6 +68,10 @@ def scenarios(draw):
         st.builds(lambda o, v, dt: {'a': 'cedit', 'obj': o, 'v': v, 'dt': dt}, st.integers(0, 1), val, dts),
         st.builds(lambda o, dt: {'a': 'cdelete', 'obj': o, 'dt': dt}, st.integers(0, 1), dts),
     )
+    # two changes of one object whose distance is the worker's idle timeout (+/- an instant): the second arrives as the worker retires
+    idle = settings['queueing.idle_timeout']
+    a_pair = st.builds(lambda n, o, v, g, dt: {'a': 'edit_pair', 'ns': n, 'obj': o, 'v': v, 'gap': g, 'dt': dt}, st.sampled_from(['default', 'default', 'ns-a']), obj, val,
+                       st.sampled_from([idle, idle - 1e-10, idle + 1e-10, idle - 1e-6, idle / 2]), dts)
     res = st.sampled_from(['kopfexamples', 'kopfexamples', 'kopfclusterthings'])
     a_stream = st.one_of(
         st.builds(lambda r, k, dt: {'a': 'break', 'plural': r, 'kind': k, 'dt': dt}, res, st.sampled_from(['eof', 'conn', 'payload', 'timeout', 'disconnected']), dts),
@@ -86,7 +91,7 @@ def scenarios(draw):
         st.builds(lambda dt: {'a': 'crd_add', 'dt': dt}, dts),
     )
     a_misc = st.one_of(st.builds(lambda dt: {'a': 'advance', 'dt': dt}, st.sampled_from([1.0, 3.0, 8.0])), st.just({'a': 'checkpoint'}))
-    choices = [a_obj, a_obj, a_obj, a_stream, a_stream, a_cluster, a_misc]
+    choices = [a_obj, a_obj, a_obj, a_pair, a_stream, a_stream, a_cluster, a_misc]
     if peering:
         choices.append(st.one_of(st.builds(lambda dt: {'a': 'peer_appear', 'dt': dt}, dts), st.builds(lambda dt: {'a': 'peer_vanish', 'dt': dt}, dts)))
     pre_ns = draw(st.lists(st.sampled_from(NS_ALL[1:]), max_size=3, unique=True))
@@ -151,6 +156,17 @@ class Run:
                 eff = c.edit(KEX, act['ns'], name, lambda b: b.setdefault('spec', {}).update(f=act['v'], n=len(self.performed))) is not None
             else:
                 eff = c.delete(KEX, act['ns'], name) is not None
+        elif a == 'edit_pair':
+            name = f'o{act["obj"]}'
+            if not self.ns_exists(act['ns']):
+                eff = False
+            else:
+                if (KEX, act['ns'], name) not in c.objects:
+                    c.create(KEX, act['ns'], name, {'spec': {'f': act['v']}})
+                    self.advance(0.3)
+                c.edit(KEX, act['ns'], name, lambda b: b.setdefault('spec', {}).update(f=act['v'], n=len(self.performed), half=1))
+                self.advance(act['gap'])
+                c.edit(KEX, act['ns'], name, lambda b: b.setdefault('spec', {}).update(f=act['v'], n=len(self.performed), half=2))
         elif a in ('ccreate', 'cedit', 'cdelete'):
             name = f'c{act["obj"]}'
             if KCT not in c.resdefs:
